@@ -9,6 +9,7 @@ import ClaripyProofs.Lemmas.VSA.ConcatSound
 import ClaripyProofs.Lemmas.VSA.AshrSound
 import ClaripyProofs.Lemmas.VSA.MeetFinal
 import ClaripyProofs.Lemmas.VSA.MulTop
+import ClaripyProofs.Lemmas.VSA.ModSound
 /-!
 The structural soundness theorem of `convBV`/`convB` with the *proved* interval operations discharged:
 `add, sub, neg, not, and, or, xor, concat, zero_extend, sign_extend, extract, udiv, shl, lshr, ashr, union (If), ULT/ULE/UGT/UGE,
@@ -22,7 +23,6 @@ the operands is obtained from the concrete values of the sub-expressions.
 namespace Claripy.VSA
 
 def restBin : BinOp → Bool
-  | .urem => true
   | _ => false
 
 def signedCmp : CmpOp → Bool
@@ -63,14 +63,39 @@ def usesRestB : BExp → Bool
 end
 
 mutual
-/-- the abstract operands of every `==` / `!=` / `*` node are aligned (their upper bounds are members): the guard under
-which the meet, hence `eq` and `mul`, is sound (`meet_sound`, `mul_sound`); evaluated along the same order stream as `convBV` -/
+/-- every interval operation the backend dispatches to is proved now: no AST uses an unproved one -/
+theorem usesRestBV_false : ∀ e : BV, usesRestBV e = false
+  | .var _ _ => rfl
+  | .free _ _ => rfl
+  | .const _ _ => rfl
+  | .bin op a b => by simp [usesRestBV, restBin, usesRestBV_false a, usesRestBV_false b]
+  | .neg a => by simp [usesRestBV, usesRestBV_false a]
+  | .not a => by simp [usesRestBV, usesRestBV_false a]
+  | .zext _ a => by simp [usesRestBV, usesRestBV_false a]
+  | .sext _ a => by simp [usesRestBV, usesRestBV_false a]
+  | .extract _ _ a => by simp [usesRestBV, usesRestBV_false a]
+  | .concat a b => by simp [usesRestBV, usesRestBV_false a, usesRestBV_false b]
+  | .ite c a b => by simp [usesRestBV, usesRestB_false c, usesRestBV_false a, usesRestBV_false b]
+theorem usesRestB_false : ∀ c : BExp, usesRestB c = false
+  | .lit _ => rfl
+  | .cmp _ a b => by simp [usesRestB, usesRestBV_false a, usesRestBV_false b]
+  | .not c => by simp [usesRestB, usesRestB_false c]
+  | .and c d => by simp [usesRestB, usesRestB_false c, usesRestB_false d]
+  | .or c d => by simp [usesRestB, usesRestB_false c, usesRestB_false d]
+  | .ite c a b => by simp [usesRestB, usesRestB_false c, usesRestB_false a, usesRestB_false b]
+end
+
+mutual
+/-- the abstract operands of every `==` / `!=` / `*` node and the divisor of every `%` node are aligned (their upper bounds
+are members): the guard under which the meet, hence `eq`, `mul` and `mod`, is sound (`meet_sound`, `mul_sound`, `mod_sound`);
+evaluated along the same order stream as `convBV` -/
 def alBV (anno : Nat → SI) : BV → Orders → Prop
   | .var _ _, _ => True
   | .free _ _, _ => True
   | .const _ _, _ => True
   | .bin op a b, o => alBV anno a o ∧ ∀ p1, convBV anno a o = .ok p1 →
-      (alBV anno b p1.2 ∧ (op = .mul → ∀ p2, convBV anno b p1.2 = .ok p2 → p1.1.si.Aligned ∧ p2.1.si.Aligned))
+      (alBV anno b p1.2 ∧ ∀ p2, convBV anno b p1.2 = .ok p2 →
+        (op = .mul → p1.1.si.Aligned) ∧ (op = .mul ∨ op = .urem → p2.1.si.Aligned))
   | .neg a, o => alBV anno a o
   | .not a, o => alBV anno a o
   | .zext _ a, o => alBV anno a o
@@ -91,12 +116,12 @@ def alB (anno : Nat → SI) : BExp → Orders → Prop
 end
 
 mutual
-/-- does the AST contain `==`, `!=` or `*` (the operations that are sound on aligned operands only)? -/
+/-- does the AST contain `==`, `!=`, `*` or `%` (the operations that are sound on aligned operands only)? -/
 def usesEqBV : BV → Bool
   | .var _ _ => false
   | .free _ _ => false
   | .const _ _ => false
-  | .bin op a b => decide (op = .mul) || usesEqBV a || usesEqBV b
+  | .bin op a b => decide (op = .mul) || decide (op = .urem) || usesEqBV a || usesEqBV b
   | .neg a => usesEqBV a
   | .not a => usesEqBV a
   | .zext _ a => usesEqBV a
@@ -114,14 +139,15 @@ def usesEqB : BExp → Bool
 end
 
 mutual
-/-- without `==` / `!=` / `*` the alignment guard is void -/
+/-- without `==` / `!=` / `*` / `%` the alignment guard is void -/
 theorem alBV_of_noEq (anno : Nat → SI) : ∀ (e : BV) (o : Orders), usesEqBV e = false → alBV anno e o
   | .var _ _, _, _ => trivial
   | .free _ _, _, _ => trivial
   | .const _ _, _, _ => trivial
   | .bin op a b, o, h => by
     simp only [usesEqBV, Bool.or_eq_false_iff, decide_eq_false_iff_not] at h
-    exact ⟨alBV_of_noEq anno a o h.1.2, fun p1 _ => ⟨alBV_of_noEq anno b p1.2 h.2, fun he => absurd he h.1.1⟩⟩
+    exact ⟨alBV_of_noEq anno a o h.1.2, fun p1 _ => ⟨alBV_of_noEq anno b p1.2 h.2, fun _ _ =>
+      ⟨fun he => absurd he h.1.1.1, fun he => by rcases he with he | he; exact absurd he h.1.1.1; exact absurd he h.1.1.2⟩⟩⟩
   | .neg a, o, h => by simp only [usesEqBV] at h; exact alBV_of_noEq anno a o h
   | .not a, o, h => by simp only [usesEqBV] at h; exact alBV_of_noEq anno a o h
   | .zext _ a, o, h => by simp only [usesEqBV] at h; exact alBV_of_noEq anno a o h
@@ -235,7 +261,7 @@ end
 
 theorem bin_proved (op : BinOp) (hop : restBin op = false) (a b r : SI) (o o' : Orders) (wa : a.WF) (wb : b.WF)
     (hbits : a.bits = b.bits) (hab : a.bottom = false) (hbb : b.bottom = false) (na : Nrm a) (nb : Nrm b)
-    (hmul : op = .mul → a.Aligned ∧ b.Aligned) (h : applyBin op a b o = .ok (r, o')) :
+    (hmul : (op = .mul → a.Aligned) ∧ (op = .mul ∨ op = .urem → b.Aligned)) (h : applyBin op a b o = .ok (r, o')) :
     (r.WF ∧ r.bits = a.bits) ∧ ∀ x y v, a.mem x → b.mem y → concBin op a.bits x y = some v → r.mem v := by
   cases op <;> simp only [restBin] at hop <;> try (exact absurd hop (by decide))
   · -- add
@@ -266,7 +292,8 @@ theorem bin_proved (op : BinOp) (hop : restBin op = false) (a b r : SI) (o o' : 
     obtain ⟨r1, h1, h⟩ := bind_ok _ _ _ h
     have := pure_ok _ _ h
     cases this
-    obtain ⟨hA, hB⟩ := hmul rfl
+    have hA := hmul.1 rfl
+    have hB := hmul.2 (Or.inl rfl)
     obtain ⟨g1, g2⟩ := mul_sound a.bits a b r ⟨wa, rfl⟩ ⟨wb, hbits.symm⟩ hab hbb hA hB na nb h1
     refine ⟨g1, ?_⟩
     intro x y v hx hy hv
@@ -291,6 +318,21 @@ theorem bin_proved (op : BinOp) (hop : restBin op = false) (a b r : SI) (o o' : 
         simp only [Option.some.injEq] at hv
         subst hv
         exact g2 x y hx hy hy0
+  · -- urem
+    simp only [applyBin] at h
+    obtain ⟨r1, h1, h⟩ := bind_ok _ _ _ h
+    have := pure_ok _ _ h
+    cases this
+    obtain ⟨⟨g1, _⟩, g2⟩ := mod_sound a.bits a b r ⟨wa, rfl⟩ ⟨wb, hbits.symm⟩ hab hbb (hmul.2 (Or.inr rfl)) h1
+    refine ⟨g1, ?_⟩
+    intro x y v hx hy hv
+    simp only [concBin] at hv
+    by_cases hy0 : y = 0
+    · rw [if_pos hy0] at hv; cases hv
+    · rw [if_neg hy0] at hv
+      simp only [Option.some.injEq] at hv
+      subst hv
+      exact g2 x y hx hy hy0
   · -- and
     simp only [applyBin] at h
     obtain ⟨r1, h1, h⟩ := bind_ok _ _ _ h
@@ -436,6 +478,20 @@ theorem mul_nrm (a b r : SI) (hw : r.WF) (hb : 0 < a.bits) (h : a.mul b = .ok r)
     obtain ⟨u, _, h⟩ := bind_ok _ _ _ h
     exact nrm_of_renorm u r (pure_ok _ _ h) hw
 
+theorem mod_nrm (a b r : SI) (hw : r.WF) (hb : 0 < a.bits) (h : a.mod b = .ok r) : Nrm r := by
+  rw [mod_eq] at h
+  split at h
+  · have := pure_ok _ _ h
+    rw [this]; unfold Nrm SI.renorm SI.empty; simp
+  · split at h
+    · have := pure_ok _ _ h
+      rw [this]; exact nrm_new _ _ _ _ hb
+    · obtain ⟨p1, _, h⟩ := bind_ok _ _ _ h
+      obtain ⟨p2, _, h⟩ := bind_ok _ _ _ h
+      obtain ⟨all, _, h⟩ := bind_ok _ _ _ h
+      obtain ⟨u, _, h⟩ := bind_ok _ _ _ h
+      exact nrm_of_renorm u r (pure_ok _ _ h) hw
+
 theorem or_nrm (a b r : SI) (hw : r.WF) (h : a.bitwiseOr b = .ok r) : Nrm r := by
   unfold SI.bitwiseOr at h
   obtain ⟨us, _, h⟩ := bind_ok _ _ _ h
@@ -478,6 +534,11 @@ theorem bin_proved_nrm (op : BinOp) (hop : restBin op = false) (a b r : SI) (o o
       have := pure_ok _ _ h
       cases this
       exact udiv_nrm a b r od hw h1
+  · simp only [applyBin] at h
+    obtain ⟨r1, h1, h⟩ := bind_ok _ _ _ h
+    have := pure_ok _ _ h
+    cases this
+    exact mod_nrm a b r hw wa.1 h1
   · simp only [applyBin] at h
     obtain ⟨r1, h1, h⟩ := bind_ok _ _ _ h
     have := pure_ok _ _ h
@@ -572,7 +633,7 @@ theorem convBV_rest_good (anno : Nat → SI) (env : Nat → Nat)
       by_cases hr : restBin op = true
       · exact (R (by simp [usesRestBV, hr])).bin op _ _ _ _ _ hr wa wb hbits h3
       · have k1 := bin_proved op (by simpa using hr) _ _ _ _ _ wa wb hbits hab hbb na nb
-          (fun he => (hal.2 p1 h1).2 he p2 h2) h3
+          ((hal.2 p1 h1).2 p2 h2) h3
         exact ⟨⟨k1.1, bin_proved_nrm op (by simpa using hr) _ _ _ _ _ wa hbits k1.1.1 h3⟩, k1.2⟩
     obtain ⟨⟨⟨wr, br⟩, nr⟩, mr⟩ := key
     refine ⟨?_, nr⟩
